@@ -380,19 +380,31 @@ func breakerRule(c *Ctx, rule string) {
 	c.check(len(la.MustBefore(op)) > 0, rule, "operation runs under the breaker mutex", op, "must-lockset %s", la.MustBefore(op))
 	// gating
 	gated := false
-	eachInstr(callFn, func(in ssa.Instruction) {
+	eachUnit := func(fn func(in ssa.Instruction)) {
+		for _, uf := range m.unitFns(callFn) {
+			eachInstr(uf, fn)
+		}
+	}
+	eachUnit(func(in ssa.Instruction) {
 		ifi, ok := in.(*ssa.If)
 		if !ok {
 			return
 		}
 		l := m.litOf(ifi.Cond, true, ifi)
 		if l.S.Op == "bin" && l.S.Name == "<" && symMentions(l.S.Args[0], "time.Since(CircuitBreaker.lastFailureTime)") && l.S.Args[1].String() == "CircuitBreaker.cooldownPeriod" {
-			gs := m.Guards(in.Block())
+			gs := m.AllGuards(in, false)
 			open := hasLit(gs, true, func(s *Sym) bool {
 				return s.Op == "bin" && s.Name == "==" && symMentions(s, "CircuitBreaker.state") && (s.Args[0].String() == "1" || s.Args[1].String() == "1")
 			})
 			edge := map[bool]int{true: 0, false: 1}[l.Truth]
-			reach := reachableFromEdge(in.Block(), edge, func(x ssa.Instruction) bool { return x == ssa.Instruction(op) })
+			reach := false
+			m.explore(in.Block(), edge, 0, func(x ssa.Instruction, flag int) (int, bool) {
+				if x == ssa.Instruction(op) {
+					reach = true
+					return flag, true
+				}
+				return flag, false
+			}, nil)
 			gated = true
 			c.check(open && !reach, rule, "no invocation while open within the cooldown", in, "test is under state==Open: %v; operation reachable from the since<cooldown edge: %v", open, reach)
 		}
@@ -402,13 +414,13 @@ func breakerRule(c *Ctx, rule string) {
 	}
 	// state updates
 	var failStores, stateStores []string
-	eachInstr(callFn, func(in ssa.Instruction) {
+	eachUnit(func(in ssa.Instruction) {
 		st, ok := in.(*ssa.Store)
 		if !ok {
 			return
 		}
 		a := m.Sym.Of(st.Addr).String()
-		gs := m.Guards(in.Block())
+		gs := m.AllGuards(in, false)
 		errLit := "?"
 		for _, l := range gs {
 			if l.S.Op == "bin" && l.S.Name == "==" && symMentions(l.S, "nil") && symMentions(l.S, "callv") {
@@ -457,92 +469,336 @@ func retryLoopRule(c *Ctx, rule string) {
 		c.undecided(rule, "RetryWithBackoff", nil, "function not found")
 		return
 	}
-	// operation invocations: call of parameter fn, or CircuitBreaker.Call(fn)
+	unit := m.unitFns(rb)
+	eachUnit := func(fn func(in ssa.Instruction)) {
+		for _, uf := range unit {
+			eachInstr(uf, fn)
+		}
+	}
+	// the function parameter of RetryWithBackoff, wherever it was handed on to
+	isOpValue := func(v ssa.Value) bool {
+		t := m.traceValue(v)
+		p, ok := t.(*ssa.Parameter)
+		return ok && p.Parent() == rb && isFuncType(p.Type())
+	}
+	// operation invocations: a call of that function value, or CircuitBreaker.Call(it)
+	var invocations []*ssa.Call
 	nDirect, nBreaker := 0, 0
-	eachInstr(rb, func(in ssa.Instruction) {
+	eachUnit(func(in ssa.Instruction) {
 		call, ok := in.(*ssa.Call)
 		if !ok {
 			return
 		}
-		if p, ok := call.Call.Value.(*ssa.Parameter); ok && !call.Call.IsInvoke() && call.Call.StaticCallee() == nil && p.Parent() == rb {
+		if !call.Call.IsInvoke() && call.Call.StaticCallee() == nil && isOpValue(call.Call.Value) {
 			nDirect++
+			invocations = append(invocations, call)
 		}
-		if g := call.Call.StaticCallee(); g != nil && g.Name() == "Call" && strings.Contains(g.String(), "CircuitBreaker") {
+		if g := call.Call.StaticCallee(); g != nil && g.Name() == "Call" && strings.Contains(g.String(), "CircuitBreaker") && len(call.Call.Args) == 2 && isOpValue(call.Call.Args[1]) {
 			nBreaker++
+			invocations = append(invocations, call)
 		}
 	})
 	c.check(nDirect == 1 && nBreaker == 1, rule, "one invocation per iteration", firstInstr(rb), "direct calls of fn: %d, calls through the breaker: %d (alternative branches of one iteration)", nDirect, nBreaker)
-	// exits
-	type exit struct {
-		name string
-		ok   bool
+	if len(invocations) == 0 {
+		return
 	}
-	found := map[string]bool{}
-	for _, b := range liveBlocks(rb) {
-		ret, ok := b.Instrs[len(b.Instrs)-1].(*ssa.Return)
-		if !ok || b == rb.Recover {
-			continue
+	isInvocation := func(in ssa.Instruction) bool {
+		for _, iv := range invocations {
+			if in == ssa.Instruction(iv) {
+				return true
+			}
 		}
-		gs := m.Guards(b)
-		s := fmtLits(gs)
-		switch {
-		case func() bool { k, isC := returnValue(ret, 0).(*ssa.Const); return isC && k.Value == nil }():
-			// success
-			if hasLit(gs, true, func(x *Sym) bool { return x.Op == "bin" && x.Name == "==" && symMentions(x, "nil") && symMentions(x, "phi[") }) {
-				found["success"] = true
+		return false
+	}
+	// derivesFromInvocation: the value is (a phi over) the result of an invocation
+	var fromInv func(v ssa.Value, depth int) bool
+	fromInv = func(v ssa.Value, depth int) bool {
+		if depth > 6 {
+			return false
+		}
+		v = m.traceValue(v)
+		switch x := v.(type) {
+		case *ssa.Call:
+			if isInvocation(x) {
+				return true
 			}
-		case strings.Contains(s, "IsPermanentError(") && !strings.Contains(s, "NOT call leader.IsPermanentError("):
-			found["permanent"] = true
-		case strings.Contains(s, "NOT (invoke context.Context.Err(param:ctx) == nil)") || strings.Contains(s, "NOT (nil == invoke context.Context.Err(param:ctx))"):
-			found["ctx.Err"] = true
-		case strings.Contains(s, ".MaxAttempts"):
-			// MaxAttempts > 0 && attempt >= MaxAttempts-1
-			if strings.Contains(s, "(0 < ") && strings.Contains(s, "MaxAttempts)") && strings.Contains(s, ".MaxAttempts - 1) <= ") {
-				found["max attempts"] = true
-			} else {
-				found["max attempts (unrecognised form: "+clip(s, 200)+")"] = true
-			}
-		default:
-			for _, l := range gs {
-				if sel, k, ok := selectCaseOf(l); ok && k < len(sel.States) {
-					if x := m.Sym.Of(sel.States[k].Chan); x.Op == "invoke" && strings.HasSuffix(x.Name, "Context.Done") {
-						found["ctx.Done"] = true
+			// the result of a unit function that returns an invocation's result
+			if g := x.Call.StaticCallee(); g != nil && containsFn(unit, g) {
+				for _, b := range liveBlocks(g) {
+					if ret, ok := b.Instrs[len(b.Instrs)-1].(*ssa.Return); ok && len(ret.Results) == 1 && fromInv(returnValue(ret, 0), depth+1) {
+						return true
 					}
 				}
 			}
-			if strings.Contains(s, "circuit breaker is open") {
-				found["breaker open"] = true
+		case *ssa.Extract:
+			if call, ok := x.Tuple.(*ssa.Call); ok {
+				if g := call.Call.StaticCallee(); g != nil && containsFn(unit, g) {
+					for _, b := range liveBlocks(g) {
+						if ret, ok := b.Instrs[len(b.Instrs)-1].(*ssa.Return); ok && x.Index < len(ret.Results) && fromInv(returnValue(ret, x.Index), depth+1) {
+							return true
+						}
+					}
+				}
+			}
+		case *ssa.Phi:
+			for _, e := range x.Edges {
+				if fromInv(e, depth+1) {
+					return true
+				}
 			}
 		}
+		return false
 	}
-	for _, e := range []string{"success", "permanent", "ctx.Err", "max attempts", "ctx.Done"} {
-		c.check(found[e], rule, "retry loop exit: "+e, firstInstr(rb), "exits found: %v", keys(found))
+	// reachesInvocation: from `start`, under the assumptions, can another invocation be reached?
+	reaches := func(start ssa.Instruction, assume map[ssa.Value]bool) ssa.Instruction {
+		var hit ssa.Instruction
+		first := true
+		m.exploreAssuming(start, assume, 0, func(in ssa.Instruction, flag int) (int, bool) {
+			if first {
+				first = false
+				return flag, false // the starting instruction itself
+			}
+			if isInvocation(in) {
+				if hit == nil {
+					hit = in
+				}
+				return flag, true
+			}
+			return flag, false
+		}, nil)
+		return hit
 	}
-	// attempt incremented only after the timer case
-	var inc *ssa.BinOp
-	eachInstr(rb, func(in ssa.Instruction) {
-		if bo, ok := in.(*ssa.BinOp); ok && bo.Op == token.ADD {
-			if _, isPhi := bo.X.(*ssa.Phi); isPhi {
-				if n, isC := constInt(bo.Y); isC && n == 1 {
-					inc = bo
+	// S1: with the invocation's result nil no further invocation is reachable
+	for i, iv := range invocations {
+		var hit ssa.Instruction
+		first := true
+		m.exploreAssumingNil(iv, map[ssa.Value]bool{ssa.Value(iv): true}, 0, func(in ssa.Instruction, flag int) (int, bool) {
+			if first {
+				first = false
+				return flag, false
+			}
+			if isInvocation(in) {
+				if hit == nil {
+					hit = in
+				}
+				return flag, true
+			}
+			return flag, false
+		}, nil)
+		c.check(hit == nil, rule, fmt.Sprintf("no invocation after success #%d", i+1), iv, "with the result of the invocation at %s nil, another invocation is reachable: %v (%s)", c.posOf(iv), hit != nil, c.posOf(hit))
+	}
+	// S2: a permanent error ends the loop
+	nPerm := 0
+	perm := m.libFunc("IsPermanentError")
+	eachUnit(func(in ssa.Instruction) {
+		switch x := in.(type) {
+		case *ssa.Call:
+			if perm != nil && x.Call.StaticCallee() == perm && len(x.Call.Args) == 1 && fromInv(x.Call.Args[0], 0) {
+				nPerm++
+				hit := reaches(in, map[ssa.Value]bool{ssa.Value(x): true})
+				c.check(hit == nil, rule, fmt.Sprintf("no invocation after a permanent error #%d", nPerm), in, "with IsPermanentError(err) == true another invocation is reachable: %v (%s)", hit != nil, c.posOf(hit))
+			}
+		}
+	})
+	if nPerm == 0 {
+		c.viol(rule, "no invocation after a permanent error", firstInstr(rb), "IsPermanentError is never applied to the invocation's error: a permanent error is retried")
+	}
+	// S3: ctx.Err() != nil is tested on every path from the loop head to an invocation
+	nCtx := 0
+	eachUnit(func(in ssa.Instruction) {
+		ifi, ok := in.(*ssa.If)
+		if !ok {
+			return
+		}
+		l := m.litOf(ifi.Cond, true, ifi)
+		if l.S.Op == "bin" && l.S.Name == "==" && symMentions(l.S, "Context.Err(param:ctx)") && symMentions(l.S, "nil") {
+			nCtx++
+			cancelledEdge := map[bool]int{true: 1, false: 0}[l.Truth]
+			var hit ssa.Instruction
+			m.explore(in.Block(), cancelledEdge, 0, func(x ssa.Instruction, flag int) (int, bool) {
+				if isInvocation(x) {
+					hit = x
+					return flag, true
+				}
+				return flag, false
+			}, nil)
+			c.check(hit == nil, rule, "no invocation once ctx.Err() != nil", in, "an invocation is reachable from the cancelled edge: %v", hit != nil)
+			for _, iv := range invocations {
+				if iv.Parent() == in.Parent() {
+					c.check(dominatesInstr(in, iv), rule, "ctx.Err() is tested before every invocation", iv, "the test dominates the invocation at %s: %v", c.posOf(iv), dominatesInstr(in, iv))
+				} else if lifted := m.liftTo(in.Parent(), iv); lifted != nil {
+					c.check(dominatesInstr(in, lifted), rule, "ctx.Err() is tested before every invocation", iv, "the test dominates the call leading to the invocation at %s: %v", c.posOf(iv), dominatesInstr(in, lifted))
 				}
 			}
 		}
 	})
-	if inc == nil {
-		c.viol(rule, "attempt counter +1 after the backoff wait", firstInstr(rb), "no attempt+1 found")
+	if nCtx == 0 {
+		c.viol(rule, "no invocation once ctx.Err() != nil", firstInstr(rb), "ctx.Err() is never tested in the retry loop")
+	}
+	// S4/S6: between two invocations lies the backoff wait; its ctx.Done() case ends the loop
+	waits := []WaitSite{}
+	for _, uf := range unit {
+		waits = append(waits, m.waitSites(uf)...)
+	}
+	// keep only wait sites in functions of the unit (a helper's own select is reported at its call site)
+	var loopWaits []WaitSite
+	for _, w := range waits {
+		if _, isSel := w.At.(*ssa.Select); isSel {
+			// a select inside a wait helper is represented by the helper's call site
+			dup := false
+			for _, o := range waits {
+				if call, ok := o.At.(*ssa.Call); ok && call.Call.StaticCallee() == w.At.Parent() {
+					dup = true
+				}
+			}
+			if dup {
+				continue
+			}
+		}
+		loopWaits = append(loopWaits, w)
+	}
+	okWait := len(loopWaits) == 1
+	var counter *ssa.Phi
+	if okWait {
+		w := loopWaits[0]
+		s := m.Sym.Of(w.Dur)
+		form := s.Op == "call" && strings.HasSuffix(s.Name, "CalculateBackoff") && len(s.Args) == 2 && strings.HasSuffix(s.Args[0].String(), "cfg.BackoffConfig")
+		if form {
+			if ph, ok := s.Args[1].V.(*ssa.Phi); ok && inLoop(ph.Block()) {
+				counter = ph
+			}
+		}
+		c.check(form && counter != nil && w.Done, rule, "backoff wait is CalculateBackoff(cfg.BackoffConfig, attempt) and observes the context", w.At, "wait expression %s; attempt is a loop-carried counter: %v; ctx.Done() case: %v", s, counter != nil, w.Done)
+		// every path from an invocation to the next one passes the wait
+		for _, iv := range invocations {
+			var hit ssa.Instruction
+			first := true
+			m.exploreFrom(iv, 0, func(x ssa.Instruction, flag int) (int, bool) {
+				if first {
+					first = false
+					return flag, false
+				}
+				if x == w.At {
+					return flag, true
+				}
+				if isInvocation(x) {
+					hit = x
+					return flag, true
+				}
+				return flag, false
+			}, nil)
+			c.check(hit == nil, rule, "every retry waits the backoff first: after "+c.posOf(iv), iv, "another invocation is reachable without passing the wait at %s: %v", c.posOf(w.At), hit != nil)
+		}
 	} else {
-		after := false
-		for _, l := range m.Guards(inc.Block()) {
-			if sel, k, ok := selectCaseOf(l); ok && k < len(sel.States) {
-				if call, ok := isCallTo(sel.States[k].Chan, "time.After"); ok {
-					s := m.Sym.Of(call.Call.Args[0])
-					if s.Op == "call" && strings.HasSuffix(s.Name, "CalculateBackoff") {
-						after = true
+		c.viol(rule, "backoff wait between invocations", firstInstr(rb), "%d bounded waits found in the retry loop (required exactly 1)", len(loopWaits))
+	}
+	// S4: the ctx.Done() case of the wait ends the loop
+	nDone := 0
+	eachUnit(func(in ssa.Instruction) {
+		ifi, ok := in.(*ssa.If)
+		if !ok {
+			return
+		}
+		for edge := 0; edge < 2; edge++ {
+			l := m.litOf(ifi.Cond, edge == 0, ifi)
+			sel, k, ok := selectCaseOf(l)
+			if !ok || k >= len(sel.States) {
+				continue
+			}
+			if _, isWait := m.selectWait(sel); !isWait {
+				continue
+			}
+			if x := m.Sym.Of(sel.States[k].Chan); x.Op == "invoke" && strings.HasSuffix(x.Name, "Context.Done") {
+				nDone++
+				var hit ssa.Instruction
+				m.explore(in.Block(), edge, 0, func(x ssa.Instruction, flag int) (int, bool) {
+					if isInvocation(x) {
+						hit = x
+						return flag, true
 					}
+					return flag, false
+				}, nil)
+				c.check(hit == nil, rule, "cancellation during the backoff wait ends the loop", in, "an invocation is reachable from the ctx.Done() case: %v", hit != nil)
+			}
+		}
+	})
+	if nDone == 0 {
+		c.viol(rule, "cancellation during the backoff wait ends the loop", firstInstr(rb), "no ctx.Done() case of a backoff wait found")
+	}
+	// the counter: starts at 0, +1 per iteration
+	if counter != nil {
+		start, step := int64(-1), int64(-1)
+		for i, e := range counter.Edges {
+			if n, isC := constInt(e); isC && !inLoopFrom(counter.Block().Preds[i], counter.Block()) {
+				start = n
+			}
+			if bo, ok := e.(*ssa.BinOp); ok && bo.Op == token.ADD && bo.X == ssa.Value(counter) {
+				if n, isC := constInt(bo.Y); isC {
+					step = n
 				}
 			}
 		}
-		c.check(after, rule, "attempt counter +1 after the backoff wait", inc, "the increment is in the time.After(CalculateBackoff(...)) case: %v", after)
+		c.check(start == 0 && step == 1 && len(counter.Edges) == 2, rule, "attempt counter starts at 0 and advances by one per retry", counter, "start %d, step %d, %d reaching definitions", start, step, len(counter.Edges))
+		// max attempts: MaxAttempts > 0 && attempt >= MaxAttempts-1 ends the loop before the wait
+		nMax := 0
+		eachUnit(func(in ssa.Instruction) {
+			ifi, ok := in.(*ssa.If)
+			if !ok {
+				return
+			}
+			l := m.litOf(ifi.Cond, true, ifi)
+			if l.S.Op == "bin" && l.S.Name == "<=" && strings.HasSuffix(l.S.Args[0].String(), ".MaxAttempts - 1)") && l.S.Args[1].V == ssa.Value(counter) {
+				nMax++
+				gs := m.Guards(in.Block())
+				pos := hasLit(gs, true, func(s *Sym) bool { return s.Op == "bin" && s.Name == "<" && s.Args[0].String() == "0" && strings.HasSuffix(s.Args[1].String(), ".MaxAttempts") })
+				edge := map[bool]int{true: 0, false: 1}[l.Truth]
+				var hit ssa.Instruction
+				m.explore(in.Block(), edge, 0, func(x ssa.Instruction, flag int) (int, bool) {
+					if isInvocation(x) {
+						hit = x
+						return flag, true
+					}
+					return flag, false
+				}, nil)
+				c.check(pos && hit == nil, rule, "at most MaxAttempts invocations (0 = unbounded)", in, "test %s under MaxAttempts > 0: %v; an invocation is reachable from its true edge: %v", l, pos, hit != nil)
+			}
+		})
+		if nMax == 0 {
+			c.viol(rule, "at most MaxAttempts invocations (0 = unbounded)", firstInstr(rb), "no test `attempt >= cfg.MaxAttempts-1` on the loop counter found")
+		}
 	}
+}
+
+func isFuncType(t types.Type) bool {
+	_, ok := t.Underlying().(*types.Signature)
+	return ok
+}
+
+
+// retryInvocations: the calls in RetryWithBackoff (and the functions its body was split into)
+// that invoke the supplied operation: a call of the function parameter or CircuitBreaker.Call(it).
+func (m *Model) retryInvocations() (rb *ssa.Function, invocations []*ssa.Call) {
+	rb = m.libFunc("RetryWithBackoff")
+	if rb == nil {
+		return nil, nil
+	}
+	isOpValue := func(v ssa.Value) bool {
+		p, ok := m.traceValue(v).(*ssa.Parameter)
+		return ok && p.Parent() == rb && isFuncType(p.Type())
+	}
+	for _, uf := range m.unitFns(rb) {
+		eachInstr(uf, func(in ssa.Instruction) {
+			call, ok := in.(*ssa.Call)
+			if !ok {
+				return
+			}
+			if !call.Call.IsInvoke() && call.Call.StaticCallee() == nil && isOpValue(call.Call.Value) {
+				invocations = append(invocations, call)
+			}
+			if g := call.Call.StaticCallee(); g != nil && g.Name() == "Call" && strings.Contains(g.String(), "CircuitBreaker") && len(call.Call.Args) == 2 && isOpValue(call.Call.Args[1]) {
+				invocations = append(invocations, call)
+			}
+		})
+	}
+	return
 }
